@@ -49,6 +49,7 @@ type world struct {
 	dt     string
 	ts     []*tensor.Dense
 	allocs []alloc
+	eng    tensor.Engine // proge: engine given to every tensor created by new (nil = default)
 	keep   bool    // progk: retain the axes slices passed to T and report them after every step
 	kept   [][]int
 }
@@ -179,13 +180,17 @@ func (w *world) step(op string) (status string) {
 		}
 		b := backing(w.dt, toks)
 		var t *tensor.Dense
+		var co []tensor.ConsOpt
+		if w.eng != nil {
+			co = append(co, tensor.WithEngine(w.eng))
+		}
 		switch f[1] {
 		case "rm":
-			t = tensor.New(tensor.WithShape(sh...), tensor.WithBacking(b))
+			t = tensor.New(append(co, tensor.WithShape(sh...), tensor.WithBacking(b))...)
 		case "cm":
-			t = tensor.New(tensor.WithShape(sh...), tensor.WithBacking(b), tensor.AsFortran(nil))
+			t = tensor.New(append(co, tensor.WithShape(sh...), tensor.WithBacking(b), tensor.AsFortran(nil))...)
 		case "cmb":
-			t = tensor.New(tensor.WithShape(sh...), tensor.AsFortran(b))
+			t = tensor.New(append(co, tensor.WithShape(sh...), tensor.AsFortran(b))...)
 		default:
 			panic("order")
 		}
